@@ -61,7 +61,7 @@ Proof.
            pose proof (HE c g a) as T; unfold eval_ok in T; destruct (evaluator_reply b c g a) as [st|]; [rewrite T|]; simpl; discriminate end);
     try (destruct (app_ready b); discriminate);
     try (match goal with |- context [module_configured ?c ?k ?n] => destruct (module_configured c k n) end; simpl; try discriminate).
-  - destruct (get_str _ _); [destruct (known_notifier_class _)|]; discriminate.
+  - destruct (get_str_go _ _); [destruct (known_notifier_class _)|]; discriminate.
   - destruct (reqbody =? 0); [discriminate|]. destruct (reqbody =? 1); discriminate.
 Qed.
 
@@ -95,7 +95,7 @@ Proof.
     destruct (gs_status st =? 0) eqn:E; [apply Z.eqb_eq in E; contradiction|]. eexists; reflexivity.
   - (* notifier detail *)
     destruct Hp as [Hm Hc]. rewrite Hm. specialize (Hc eq_refl). unfold notifier_class_known in Hc.
-    destruct (get_str _ _); [rewrite Hc|discriminate]. eexists; reflexivity.
+    destruct (get_str_go _ _); [rewrite Hc|discriminate]. eexists; reflexivity.
   - (* POST loglevel *)
     subst reqbody. simpl. eexists; reflexivity.
 Qed.
@@ -216,18 +216,48 @@ Theorem serve_total :
     snd (serve (compile_table tbl) method path reqbody b cfg) <> Crash.
 Proof.
   intros tbl opts Htbl b Hb method path reqbody cfg. unfold serve.
-  destruct (dispatch (compile_table tbl) method path) as [[row ps]|] eqn:E; [|simpl; discriminate].
+  destruct (dispatch (compile_table tbl) method path) as [[row ps]|] eqn:E;
+    [|destruct (router_level (compile_table tbl) method path); simpl; discriminate].
   apply dispatch_in in E. destruct (compile_table_routes _ _ Htbl _ E) as [r Hr]. rewrite Hr.
   apply handle_total; assumption.
 Qed.
 
-(* A request that matches no registration and is handed to NotFound is answered 404 with error=true and
-   reaches no backend. *)
+(* "Unrouted paths get 404", exactly as far as it is true: a request that matches no registration AND that httprouter
+   does not answer by itself ([router_level] = None: no trailing-slash / cleaned-path redirect applies and the path is
+   not registered under another method) is handed to NotFound, which answers 404 with error=true; no backend is reached.
+   FULL STATEMENT of the property text ("unrouted paths get 404", for every non-dispatching method and path) is false of
+   the router: see [unrouted_router_level] and the Example [unrouted_redirect_example]. *)
 Theorem unrouted_404 :
   forall (tbl : list brow) (method path : bytes) (reqbody : Z) (b : backend) (cfg : tree),
     dispatch tbl method path = None ->
+    router_level tbl method path = None ->
     serve tbl method path reqbody b cfg = ([], Resp 404 false (BJson true true false None)).
-Proof. intros tbl method path reqbody b cfg H. unfold serve. rewrite H. reflexivity. Qed.
+Proof. intros tbl method path reqbody b cfg H Hr. unfold serve. rewrite H, Hr. reflexivity. Qed.
+
+(* the other unrouted requests: answered by the router itself with 301 / 307 (redirect), 405 or -- OPTIONS -- 200; no
+   handler runs and no backend is reached *)
+Theorem unrouted_router_level :
+  forall (tbl : list brow) (method path : bytes) (reqbody : Z) (b : backend) (cfg : tree) (code : Z),
+    dispatch tbl method path = None ->
+    router_level tbl method path = Some code ->
+    serve tbl method path reqbody b cfg = ([], Resp code false BOpaque) /\
+    (code = 301 \/ code = 307 \/ code = 405 \/ code = 200).
+Proof.
+  intros tbl method path reqbody b cfg code H Hr. split; [unfold serve; rewrite H, Hr; reflexivity|].
+  unfold router_level in Hr.
+  destruct (has_tree tbl method && negb (beq method m_connect) && negb (beq path [slash])
+            && (tsr tbl method path || fixed_path tbl method path)).
+  - destruct (beq method m_get); inversion Hr; auto.
+  - destruct (beq method m_options); destruct (allowed tbl method path); inversion Hr; auto.
+Qed.
+
+Theorem unrouted_no_backend :
+  forall (tbl : list brow) (method path : bytes) (reqbody : Z) (b : backend) (cfg : tree),
+    dispatch tbl method path = None -> fst (serve tbl method path reqbody b cfg) = [].
+Proof.
+  intros tbl method path reqbody b cfg H. unfold serve. rewrite H.
+  destruct (router_level tbl method path); reflexivity.
+Qed.
 
 (* The envelope rules at the level of the server: whatever bytes the path is made of, if it matches a
    registration then the three handler theorems apply to the parameters httprouter extracted. *)
@@ -236,7 +266,9 @@ Theorem serve_envelope :
   forall (b : backend), backend_typed b ->
   forall (method path : bytes) (reqbody : Z) (cfg : tree),
     match dispatch (compile_table tbl) method path with
-    | None => serve (compile_table tbl) method path reqbody b cfg = ([], default_handler)
+    | None => fst (serve (compile_table tbl) method path reqbody b cfg) = [] /\
+              (router_level (compile_table tbl) method path = None ->
+               serve (compile_table tbl) method path reqbody b cfg = ([], default_handler))
     | Some (row, ps) =>
         exists r, br_route row = Some r /\
           serve (compile_table tbl) method path reqbody b cfg = handle r ps reqbody b cfg /\
@@ -254,7 +286,7 @@ Proof.
     split; [apply handle_total; assumption|]. split.
     + intros Hv Hp. eapply envelope_exists; eauto.
     + intros Hd Hu. eapply envelope_unknown_partial; eauto.
-  - apply unrouted_404. exact E.
+  - split; [apply unrouted_no_backend; exact E|]. intro Hr. apply unrouted_404; assumption.
 Qed.
 
 (* ------------------------------------------------------------------------------------------------ *)
@@ -1059,6 +1091,38 @@ Example envelope_example_module :
   present RCfgStorageDetail [(s_name, pb "LOCAL")] 2 example_backend f9_cfg /\
   unknown_full RCfgStorageDetail [(s_name, pb "local.intervals")] example_backend f9_cfg.
 Proof. split; [vm_compute; split; [reflexivity|discriminate]|left; vm_compute; reflexivity]. Qed.
+
+(* viper's case-insensitivity is Go's Unicode lower-casing: U+212A KELVIN SIGN + "afka" names the module "kafka" *)
+Definition kelvin_cfg : tree :=
+  Node (KCons (pb "consumer") (Node (KCons (pb "kafka") (Node (KCons (pb "class-name") (Leaf (VStr (pb "kafka"))) KNil)) KNil)) KNil).
+Definition kelvin_afka : bytes := [226; 132; 170] ++ pb "afka".
+
+Example kelvin_sign_names_module :
+  present RCfgConsumerDetail [(s_name, kelvin_afka)] 2 example_backend kelvin_cfg /\
+  snd (handle RCfgConsumerDetail [(s_name, kelvin_afka)] 2 example_backend kelvin_cfg) = Resp 200 true (BJson false true true None) /\
+  unknown_full RCfgConsumerDetail [(s_name, [226; 132] ++ pb "afka")] example_backend kelvin_cfg.
+Proof. split; [vm_compute; split; [reflexivity|discriminate]|split; [vm_compute; reflexivity|left; vm_compute; reflexivity]]. Qed.
+
+(* a small compiled table: GET /v3/kafka and GET /v3/kafka/:cluster, DELETE /v3/kafka/:cluster/consumer/:consumer *)
+Definition mini_table : list brow :=
+  [mk_brow (pb "GET") [BLit (pb "v3"); BLit (pb "kafka")] (Some RClusterList);
+   mk_brow (pb "GET") [BLit (pb "v3"); BLit (pb "kafka"); BParam (pb "cluster")] (Some RClusterDetail);
+   mk_brow (pb "DELETE") [BLit (pb "v3"); BLit (pb "kafka"); BParam (pb "cluster"); BLit (pb "consumer"); BParam (pb "consumer")]
+           (Some RConsumerDelete)].
+
+(* unrouted requests: NotFound (404), trailing-slash redirect (301), case-fixed path redirect (301), method not allowed
+   (405), OPTIONS (200) -- the property's "unrouted paths get 404" holds of the first kind only *)
+Example unrouted_redirect_example :
+  router_level mini_table (pb "GET") (pb "/v3/no/such/uri") = None /\
+  snd (serve mini_table (pb "GET") (pb "/v3/no/such/uri") 2 example_backend (Node KNil)) = Resp 404 false (BJson true true false None) /\
+  dispatch mini_table (pb "GET") (pb "/v3/kafka/") = None /\
+  router_level mini_table (pb "GET") (pb "/v3/kafka/") = Some 301 /\
+  router_level mini_table (pb "GET") (pb "/V3//Kafka/./c1") = Some 301 /\
+  router_level mini_table (pb "DELETE") (pb "/v3/kafka/c1/consumer/g/") = Some 307 /\
+  router_level mini_table (pb "PUT") (pb "/v3/kafka") = Some 405 /\
+  router_level mini_table (pb "OPTIONS") (pb "/v3/kafka/c1") = Some 200 /\
+  router_level mini_table (pb "OPTIONS") (pb "/nothing") = None.
+Proof. repeat split; vm_compute; reflexivity. Qed.
 
 (* an ill-typed backend does crash the handler: the contract is needed *)
 Example untyped_backend_crashes :
